@@ -271,7 +271,10 @@ func (v *collator_[V]) compareValues(first ref.Value, second ref.Value) bool {
 		return v.compareIntrinsics(first, second)
 
 	// Handle all intrinsic collection types.
-	case ref.Array, ref.Slice:
+	case ref.Array:
+		// A fixed-size Go array is never nil.
+		return v.compareArrays(first, second)
+	case ref.Slice:
 		switch {
 		case first.IsNil():
 			return second.IsNil()
@@ -716,7 +719,10 @@ func (v *collator_[V]) rankValues(first ref.Value, second ref.Value) Rank {
 		return v.rankIntrinsics(first, second)
 
 	// Handle all intrinsic collection types.
-	case ref.Array, ref.Slice:
+	case ref.Array:
+		// A fixed-size Go array is never nil.
+		return v.rankArrays(first, second)
+	case ref.Slice:
 		switch {
 		case first.IsNil():
 			if second.IsNil() {
